@@ -1,7 +1,8 @@
 (* Extraction of the C13 model (run from ocaml/gen). ExtrOcamlBasic only. *)
 From Coq Require Import Extraction ExtrOcamlBasic.
-From Tele Require Import Lib.Bytes Lib.Calendar Lib.Sort Model.Worker.
+From Tele Require Import Lib.Bytes Lib.Calendar Lib.Sort Model.Worker Model.WorkerStore.
 Extraction Language OCaml.
 Extraction "worker_model.ml" frame unframe merge read_merged handle_chart read_day chart_ok programs_ok
   go_major_minor split_counter_name expand is_toolchain
-  rank_lt iter_id group max_week spec_count chart_object_name fmt_date.
+  rank_lt iter_id group max_week spec_count chart_object_name fmt_date
+  step run_ops ws_empty b_get read_state_day day_objects.
